@@ -412,7 +412,7 @@ def run(chk):
                     chk.ok("C03.bufshape", n, f"`{buf}` <- remainder returned by `{K.short(n.value, 50)}`")
                     continue
                 vt = norm.raw(v)
-                suffix = isinstance(v, ast.Subscript) and norm.raw(v.value) == buf and isinstance(v.slice, ast.Slice) and v.slice.upper is None and v.slice.step is None
+                suffix = isinstance(v, ast.Subscript) and norm.raw(v.value) in (buf, f"bytes({buf})", f"memoryview({buf})") and isinstance(v.slice, ast.Slice) and v.slice.upper is None and v.slice.step is None
                 empty = (isinstance(v, ast.Constant) and v.value in (b"", "")) or vt in ("EMPTY",)
                 if suffix or empty or vt == f"self.{attr} + {buf}" or vt in (f"bytes({buf})", f"memoryview({buf})"):
                     chk.ok("C03.bufshape", n, f"`{buf}` <- `{vt}`: " + ("consumed from the front" if suffix else "saved tail prepended" if "+" in vt else "emptied / same bytes"))
